@@ -38,6 +38,18 @@ NWORKERS = int(os.environ.get("VERIF_WORKERS", "16"))
 def _worker_main(modname, build_kind, build_path, tier, jobq, resq, hb, wid):
     try:
         signal.signal(signal.SIGINT, signal.SIG_IGN)
+        _ppid = os.getppid()
+
+        def _orphan_guard():
+            import threading as _t
+            def loop():
+                while True:
+                    time.sleep(2)
+                    if os.getppid() != _ppid:
+                        os._exit(3)
+            _t.Thread(target=loop, daemon=True).start()
+
+        _orphan_guard()
         os.environ.setdefault("PYTHONHASHSEED", "0")
         sys.setrecursionlimit(1000)
         _build.activate(build_path, build_kind)
